@@ -518,7 +518,8 @@ def run_property(prop, jobs, meta, tier, nproc=16):
     evidence = {
         'property_id': prop, 'tier': tier, 'seed': seed, 'level': 'model_checking',
         'coverage': {
-            'states': max(agg['paths'], 0), 'transitions': max(agg['decisions'], 0),
+            'states': max(agg['paths'], 0), 'transitions': max(agg['decisions'], 0) + agg['obligations'],
+            'branch_decisions': agg['decisions'],
             'traces_validated_against_impl': agg['witnesses'],
             'samples': samples[:6] or [{'note': 'no sample recorded'}],
             'obligations': agg['obligations'], 'discharged': agg['discharged'],
@@ -532,8 +533,8 @@ def run_property(prop, jobs, meta, tier, nproc=16):
             'witness_mismatches': len(mism),
             'exhaustive': (not incomplete and n_inconc == 0),
             'explanation': 'states = feasible paths of the real /repo functions explored symbolically '
-                           '(every path within the bound when exhaustive is true); transitions = solver-decided '
-                           'branch points; obligations = property assertions checked with z3 on each path '
+                           '(every path within the bound when exhaustive is true); transitions = solver-decided steps '
+                           '(branch points + property obligations); obligations = property assertions checked with z3 on each path '
                            '(unsat of path-condition /\\ not(property)); traces_validated = path witnesses re-run on '
                            'the real code with real NumPy and compared with the symbolic outputs.',
             'functions_encoded': meta.get('functions', []),
